@@ -93,6 +93,9 @@ type hxSrv struct {
 	stalled      bool
 	blockedRead  bool // client read with nothing queued and no stall configured
 	tlsActive    bool
+	phase        string
+	armChecks    int
+	expectTimeout time.Duration
 	posCount     map[string]int
 }
 
@@ -216,6 +219,9 @@ func (s *hxSrv) respond(line []byte) {
 		sp++
 	}
 	verb := hxUpper(line[:sp])
+	if s.inAuth {
+		verb = "AUTH-CONT"
+	}
 	c := &hxCmd{verb: verb, line: string(line), state: s.state, mark: "cmd" + string(rune('A'+len(s.cmds)%26)) + string(rune('a'+len(s.cmds)/26))}
 	s.cmds = append(s.cmds, c)
 	if s.stallAt >= 0 && len(s.cmds)-1 >= s.stallAt {
@@ -526,7 +532,11 @@ func (c *hxConn) Read(p []byte) (int, error) {
 			if s.deadlineSet {
 				return 0, hxTimeoutErr{}
 			}
-			svAssert(false, "C17 blocking read with no deadline armed")
+			step := "greeting"
+			if len(s.cmds) > 0 {
+				step = s.cmds[len(s.cmds)-1].verb
+			}
+			svAssert(false, "C17 blocking read with no deadline armed ("+s.phase+": waiting for the reply to "+step+")")
 			svStop()
 		}
 		s.blockedRead = true
@@ -560,6 +570,12 @@ func (c *hxConn) RemoteAddr() net.Addr { return hxAddr{} }
 func (c *hxConn) SetDeadline(t time.Time) error {
 	c.s.deadline, c.s.deadlineSet = t, !t.IsZero()
 	c.s.deadlineCalls++
+	if c.s.expectTimeout > 0 && !t.IsZero() {
+		d := time.Until(t)
+		svAssert(d <= c.s.expectTimeout, "C17 deadline armed later than now + timeout")
+		svAssert(d > c.s.expectTimeout-5*time.Second, "C17 deadline armed much earlier than now + timeout")
+		c.s.armChecks++
+	}
 	return nil
 }
 func (c *hxConn) SetReadDeadline(t time.Time) error  { return c.SetDeadline(t) }
